@@ -96,6 +96,43 @@ def check_triple(spec, a, b, c, ha, hb, hc):
     return []
 
 
+def check_build(spec, ha, hb, hc):
+    """Stack.build / Fraction.build assemble containers from separately aggregated pieces: their content is defined by +."""
+    import histogrammar as hg
+
+    args = pair_args(spec, ha, hb, hc)
+    out = []
+    try:
+        a, b, c = core.mk(spec, ha), core.mk(spec, hb), core.mk(spec, hc)
+        docs = [x.toJson() for x in (a, b, c)]
+        st = hg.Stack.build(a, b, c)
+        exp_bins = [R.ref_doc(spec, ha + hb + hc)["data"], R.ref_doc(spec, hb + hc)["data"], R.ref_doc(spec, hc)["data"]]
+        got = st.toJson()["data"]
+        got_bins = [e["data"] for e in got["bins"]]
+        # bins are serialised without their own name
+        d = C.diff(got_bins, exp_bins, drop_names=True)
+        if d:
+            out.append(core.v_diff(PROP, "build", "Stack.build bins differ from the cumulative sums", d,
+                                   {"type": "Stack", "data": got}, args))
+        tot = sum(C._num(x["data"]["entries"] if isinstance(x["data"], dict) else x["data"]) for x in docs)
+        if C._num(got["entries"]) != tot:
+            out.append(FW.violation(PROP, "build", "Stack.build entries", "entries", args, {"got": got["entries"], "expected": tot}))
+        fr = hg.Fraction.build(a, b)
+        gf = fr.toJson()["data"]
+        d = C.diff([gf["numerator"], gf["denominator"]], [R.ref_doc(spec, ha)["data"], R.ref_doc(spec, hb)["data"]], drop_names=True)
+        if d:
+            out.append(core.v_diff(PROP, "build", "Fraction.build numerator/denominator differ from the pieces", d,
+                                   {"type": "Fraction", "data": gf}, args))
+        for x, d0 in zip((a, b, c), docs):
+            d = C.diff(x.toJson(), d0, tol_keys=())
+            if d:
+                out.append(core.v_diff(PROP, "build", "piece changed by Stack.build/Fraction.build", d, x.toJson(), args))
+                break
+    except Exception as e:
+        out.append(core.v_exc(PROP, "build", "Stack.build/Fraction.build raised", e, args))
+    return out
+
+
 def schedules(k):
     """All reduction schedules of k partials: permutations x parenthesisations, as nested tuples of indexes."""
     def trees(seq):
@@ -228,6 +265,11 @@ def _tree(task):
         acc.n("transitions", 4)
     for i in idx:
         PT.verify(i, acc, pair_args(spec, PT.hist[i], []), "+ (triples)")
+    if not any(n.get("tr") for _, _, n in S.node_ids(spec)):
+        hs = PT.hist[: 4]
+        for ha, hb, hc in itertools.product(hs, hs, hs):
+            acc.add(check_build(spec, ha, hb, hc))
+            acc.n("build_cases")
     # end to end: every stream, every assignment to k chunks, every schedule
     evS = A.events(spec, "core", cap=B["capS"], noop=True, weights=[1.0, 0.5])
     nsch = {k: len(list(schedules(k))) for k in range(1, B["kS"] + 1)}
@@ -300,6 +342,8 @@ def replay(driver, args):
     if driver == "partition":
         return check_partition(spec, core.unshow_evs(args["stream"]), args["assign"], args["k"])
     ha, hb = core.unshow_evs(args["ha"]), core.unshow_evs(args["hb"])
+    if driver == "build":
+        return check_build(spec, ha, hb, core.unshow_evs(args["hc"]))
     if driver == "identity":
         return check_identity(spec, core.mk(spec, ha), ha)
     if driver == "assoc":
